@@ -30,6 +30,7 @@ type Case struct {
 	MaxLen  int       `json:"maxlen,omitempty"` // ... and length bound
 	StartAt int       `json:"start_at,omitempty"`
 	OneOff  bool      `json:"one_offset,omitempty"` // replay: only StartAt (otherwise every offset)
+	Expect  string    `json:"expect,omitempty"`     // hand-checked expectation (table cases): the reference must reproduce it
 }
 
 const Budget = 200000
@@ -191,6 +192,9 @@ func Check(c Case) error {
 			}
 			got := canon.FromMatch(cp.Re, m).String()
 			exp := refString(ref, cp.Nums)
+			if c.Expect != "" && exp != c.Expect {
+				return fail(c, in, at, fmt.Sprintf("HARNESS: reference matcher gives %s, hand-checked expectation is %s", exp, c.Expect))
+			}
 			// labels
 			if ref.Matched {
 				h.Label("match")
@@ -208,9 +212,6 @@ func Check(c Case) error {
 				}
 			}
 			h.LabelIf(nonASCII, "nonascii-input")
-			for _, f := range feats {
-				h.Label("feat:" + f)
-			}
 			nontrivial := ref.Matched && choice
 			if !ref.Matched {
 				for _, r := range in {
@@ -232,6 +233,10 @@ func Check(c Case) error {
 			}
 		}
 		return nil
+	}
+	h.Label("patterns")
+	for _, f := range feats {
+		h.Label("feat:" + f)
 	}
 	if c.Alpha != "" {
 		h.Label("exhaustive-pattern")
